@@ -814,6 +814,46 @@ def decode_template(bs):
         return None
 
 
+def decode_template_full(bs):
+    """the same template with the formatting options of every placeholder: [('lit', str) | ('arg', dict(index, flags, width, precision))];
+    None on an unknown code. Encoding (library/core/src/fmt/mod.rs): a byte with the two highest bits set, then — when the respective bit of
+    that byte is set — flags (u32), width (u16), precision (u16), arg_index (u16), little endian"""
+    out, i = [], 0
+    try:
+        while i < len(bs):
+            b = bs[i]
+            if b == 0:
+                return out
+            if b < 0x80:
+                out.append(("lit", bytes(bs[i + 1:i + 1 + b]).decode("utf-8")))
+                i += 1 + b
+            elif b == 0x80:
+                n = bs[i + 1] | (bs[i + 2] << 8)
+                out.append(("lit", bytes(bs[i + 3:i + 3 + n]).decode("utf-8")))
+                i += 3 + n
+            elif b & 0xC0 == 0xC0:
+                spec = dict(index=None, flags=None, width=None, precision=None, width_indirect=bool(b & 0x10), precision_indirect=bool(b & 0x20))
+                i += 1
+                if b & 0x01:
+                    spec["flags"] = int.from_bytes(bytes(bs[i:i + 4]), "little")
+                    i += 4
+                if b & 0x02:
+                    spec["width"] = bs[i] | (bs[i + 1] << 8)
+                    i += 2
+                if b & 0x04:
+                    spec["precision"] = bs[i] | (bs[i + 1] << 8)
+                    i += 2
+                if b & 0x08:
+                    spec["index"] = bs[i] | (bs[i + 1] << 8)
+                    i += 2
+                out.append(("arg", spec))
+            else:
+                return None
+        return out
+    except Exception:
+        return None
+
+
 def fmt_pieces(v):
     """for a value that is `format!(..)` (std::fmt::format(Arguments::new(template, [Argument::new_*(x), ..]))), return
     [('lit', s) | ('arg', node)] in order; None when v is not such a call or the template cannot be decoded"""
